@@ -45,6 +45,11 @@ func (p *simpleExpressionPlanner) tagsV2Planner() (shared.SQLRequestPlanner, err
 
 	p.analyze()
 
+	if p.cond == nil {
+		// `{}` restricts nothing: every tag of the time range, as valuesV2Planner does for values
+		return &AllTagsRequestPlanner{}, nil
+	}
+
 	var res shared.SQLRequestPlanner = &AttrConditionPlanner{
 		Main:           NewInitIndexPlanner(false),
 		Terms:          p.termIdx,
